@@ -53,7 +53,7 @@ REC_CFG = """SPECIFICATION Spec
 CONSTANTS
   Keys = %s
   Labels = {0, 1}
-  Filters = {"null", "all", "lx1", "lx0", "fnx0", "nlx1", "nsa", "anx0", "anx1", "nsp1", "nsp2", "sel0", "selall"}
+  Filters = {"null", "all", "lx1", "lx0", "fnx0", "nlx1", "nsa", "anx0", "anx1", "nsp1", "nsp2", "nnpa", "nnpb", "sel0", "selall"}
 INVARIANT Done
 CHECK_DEADLOCK FALSE
 """
